@@ -348,7 +348,9 @@ theorem actStep_spec (r : Rule) (w : Which) (done : List Act) (a : Act) (rest : 
         · split at heq
           · simp only [Prod.mk.injEq] at heq; exact heq.2.symm
           · simp at heq
-      · simp only [Prod.mk.injEq] at heq; exact heq.2.symm
+      · split at heq
+        · simp only [Prod.mk.injEq] at heq; exact heq.2.symm
+        · simp only [Prod.mk.injEq] at heq; exact heq.2.symm
     rw [heq]
     simp only [hos, List.nil_append]
     refine ⟨_, rfl, ?_⟩
